@@ -355,7 +355,8 @@ func (l *Lexer) readNumber(ch byte) (token.Type, string) {
 		l.pos++
 	}
 	if !isDigit(l.peekChar()) {
-		// Invalid exponent, stop here
+		// Invalid exponent, stop here (and give back the `e` and sign so they are lexed as the next tokens)
+		l.pos = errPos
 		return t, string(l.input[pos:errPos])
 	}
 	t = token.FLOAT
